@@ -13,6 +13,12 @@ M = "eliot/_message.py::"
 
 axiom("lvk-injective", lvk_axioms, "TaskLevel keys: lvk (level list -> dictionary key) is injective (TaskLevel.__hash__/__eq__ hash and compare the level list)")
 
+
+# what ill-formed input may raise out of the parser (Eliot's own consistency errors, KeyError for a missing action_status, IndexError for an end message without a level); anything
+# else -- AttributeError, TypeError, NameError ... -- escaping these functions is a failed obligation
+PARSE_ERRORS = [{"cls": "WrongTask"}, {"cls": "WrongTaskLevel"}, {"cls": "WrongActionType"}, {"cls": "InvalidStatus"},
+                {"cls": "InvalidStartMessage"}, {"cls": "KeyError"}, {"cls": "IndexError"}]
+
 NODE = "WrittenAction|WrittenMessage"
 MSGDICT = "dict[task_uuid=str;task_level=list[int];*=Any]"
 fields("Parser", _tasks="pmap[str->Task]")
@@ -55,7 +61,7 @@ contract(P + "Parser.add", props=["C09", "C01"], types={"message_dict": MSGDICT}
                    "else update(old(tasks(self)), {message_dict['task_uuid']: T1}))"),
                   ("receiver-unchanged", "tasks(self) == old(tasks(self))"),
                   ("stored-tasks-hold-only-actions", "tasks_ok(result[1])")],
-         raises=[{"cls": "Exception"}])
+         raises=PARSE_ERRORS)
 
 contract(P + "Parser.incomplete_tasks", props=["C09"], returns="list[Task]", modifies=[],
          ensures=[("one-entry-per-stored-task", "len(seq(result)) == card(tasks(self))"),
@@ -193,7 +199,7 @@ contract(P + "Task._insert_action", props=["C09", "C01"], shards=4, types={"node
                    "RULE == old(complete_here(self, node)) and done_at(result, level_of(node.task_level)) == (old(done_at(self, level_of(node.task_level))) or RULE)"),
                   ("completed-only-grows-and-only-at-the-node-or-its-ancestors", "completed_grows_only_at(result, self, level_of(node.task_level))"),
                   ("only-actions-stored", "actions_only(result)")],
-         raises=[{"cls": "Exception"}])
+         raises=PARSE_ERRORS)
 
 specfun("oldpar", ["t", "L"], "typed(dget(nodes(t), lvk(L[:-1])), 'WrittenAction')")
 contract(P + "Task._ensure_node_parents", props=["C09", "C01"], shards=4, types={"child": NODE}, returns="Task", modifies=[],
@@ -215,7 +221,7 @@ contract(P + "Task._ensure_node_parents", props=["C09", "C01"], shards=4, types=
                   ("only-proper-ancestors-change", "implies(len(nlevel(child)) > 0, nodes_same_outside(result, self, nlevel(child)[:-1]))"),
                   ("completed-only-grows-and-only-at-proper-ancestors", "implies(len(nlevel(child)) > 0, completed_grows_only_at(result, self, nlevel(child)[:-1]))"),
                   ("only-actions-stored", "actions_only(result)")],
-         raises=[{"cls": "Exception"}])
+         raises=PARSE_ERRORS)
 
 # ------------------------------------------------------------------------------------------------ Task.add
 specfun("msg_level", ["d"], "seq(dget(dict_of(d), 'task_level'))")
@@ -258,4 +264,4 @@ contract(P + "Task.add", props=["C09", "C01"], shards=4, types={"message_dict": 
                    "implies(not is_action_message(message_dict), nodes_same_outside(result, self, msg_level(message_dict)) and completed_grows_only_at(result, self, msg_level(message_dict))) and "
                    "implies(is_action_message(message_dict), nodes_same_outside(result, self, level_of(ACT.task_level)) and completed_grows_only_at(result, self, level_of(ACT.task_level)))", ["C09", "C01"]),
                   ("only-actions-stored", "implies(is_action_message(message_dict) or msg_level(message_dict) != [1], actions_only(result))")],
-         raises=[{"cls": "Exception"}])
+         raises=PARSE_ERRORS)
